@@ -20,7 +20,7 @@ Family ==
        [kind : {"benign"}, i : 1..Len(OpSeq), n : 0..6, v : 1..3, d : {2}]
   \cup [kind : {"arb"}, i : 1..Len(OpSeq), n : 0..6, v : 1..Len(T3), d : {1}]
   \cup [kind : {"unary"}, i : 1..Len(OpSeq), n : {1}, v : 1..Len(X3), d : {2}]
-  \cup [kind : {"place"}, i : 1..Len(OpSeq), n : {0}, v : 1..12, d : {2}]
+  \cup [kind : {"place"}, i : 1..Len(OpSeq), n : {0}, v : 1..18, d : {2}]
 
 \* an operation on k with a WRONG operand count (if there is one among 0..6), else a right one
 BadCount(k) == IF \E n \in 0..6 : ~ArityOK(k, n) THEN CHOOSE n \in 0..6 : ~ArityOK(k, n) ELSE 0
@@ -48,6 +48,13 @@ RuleOf(cc) ==
            [] cc.v = 10 -> Op(K_and, <<True, Op(k, Benign(k, BadCount(k), 1))>>)
            [] cc.v = 11 -> LET n == GoodCount(k) IN Op(k, [q \in 1..n |-> IF q = n THEN Op(k, Benign(k, BadCount(k), 1)) ELSE BenignAt(k, q, 1)])
            [] cc.v = 12 -> Op(K_if, <<Op(k, Benign(k, BadCount(k), 1)), IntV(1), IntV(2)>>)
+           \* the ill-formed operation directly as the per-element expression / predicate over a NON-EMPTY collection
+           [] cc.v = 13 -> Op(K_map, <<Arr12, Op(k, Benign(k, BadCount(k), 1))>>)
+           [] cc.v = 14 -> Op(K_filter, <<Arr12, Op(k, Benign(k, BadCount(k), 1))>>)
+           [] cc.v = 15 -> Op(K_all, <<Arr12, Op(k, Benign(k, BadCount(k), 1))>>)
+           [] cc.v = 16 -> Op(K_some, <<VarOf(<<98>>), Op(k, Benign(k, BadCount(k), 1))>>)
+           [] cc.v = 17 -> Op(K_reduce, <<Arr12, Op(k, Benign(k, BadCount(k), 1)), IntV(0)>>)
+           [] cc.v = 18 -> Op(K_none, <<Arr(<<Op(k, Benign(k, BadCount(k), 1))>>), True>>)
 Rule2Of(cc) == Op(OpSeq[cc.i], <<X3[cc.v]>>)
 DataOf(cc) == D3[cc.d]
 
@@ -78,7 +85,7 @@ Scope(cc) == IF cc.kind = "arb" /\ ArityOK(OpSeq[cc.i], cc.n) THEN <<>>
              ELSE <<"C03">>
 \* an operation with a wrong count is an error wherever it is actually reached
 WrongCountReached ==
-  phase = "done" /\ c.kind = "place" /\ c.v \in {9, 10, 12} /\ ~ArityOK(OpSeq[c.i], BadCount(OpSeq[c.i])) => ~Outcome(c).ok
+  phase = "done" /\ c.kind = "place" /\ c.v \in {9, 10, 12, 13, 14, 15, 16, 17, 18} /\ ~ArityOK(OpSeq[c.i], BadCount(OpSeq[c.i])) => ~Outcome(c).ok
 ExportCases ==
   phase = "done" =>
     IF c.kind = "unary"
